@@ -372,6 +372,14 @@ Proof.
     destruct pend; [|exact D0].
     destruct (phase_of (set_boot C a KDead) p); try exact D0. destruct (Nat.eqb a a0); [|exact D0].
     pose proof (boot_next_D in_dl in_dl_frame [] (set_boot C a KDead) p rest D0) as Y. destruct (boot_next (set_boot C a KDead) p rest). exact Y.
+  - (* EResend *)
+    destruct (c_clients C) as [cl|]; [|exact D].
+    destruct (nth_error (c_direct C) d) as [[i h0]|]; [|exact D].
+    match goal with |- DL [] (fst (match make_req C i ?rid expect mint ?ow with _ => _ end)) =>
+      pose proof (make_req_D in_dl in_dl_frame in_dl_refresh [] C i rid expect mint ow D) as D3;
+      destruct (make_req C i rid expect mint ow) as [[C3 r] o3] end.
+    cbn [fst] in D3.
+    destruct r; cbn [fst]; [exact D3 | |]; (eapply (D_frame in_dl in_dl_frame); [| |exact D3]; reflexivity).
 Qed.
 
 Theorem run_DL : forall evs C, DL [] C -> DL [] (fst (run C evs)).
